@@ -1013,6 +1013,7 @@ impl Gen {
             return;
         }
         let e = self.live().unwrap();
+        let r = if profile == "sys_vis" && self.rng.chance(1, 4) { 85 } else { r };
         match r {
             0..=13 => self.spawn(profile),
             14..=43 => {
@@ -1033,6 +1034,15 @@ impl Gen {
                 let c = self.rng.below(self.sys.clients.len() as u64);
                 let v = self.rng.chance(1, 2) as u8;
                 self.step(format!("vis {c} {e} {v}"));
+                // repeated and mutually cancelling calls inside one tick window
+                if self.rng.chance(1, 2) {
+                    let n = self.rng.range(1, 3);
+                    let mut cur = v;
+                    for _ in 0..n {
+                        cur = if self.rng.chance(4, 5) { 1 - cur } else { cur };
+                        self.step(format!("vis {c} {e} {cur}"));
+                    }
+                }
             }
             90..=93 if self.sys.cfg.sync => {
                 if let Some(p) = self.live() { self.step(format!("rel {e} {p}")); }
@@ -1118,6 +1128,18 @@ impl Gen {
                     if tick == 1 {
                         let muts = std::mem::take(&mut self.window_muts);
                         let lens = self.sys.last_mutate_lens.clone();
+                        if profile == "sys_split" && lens.len() >= 2 && self.rng.chance(1, 2) {
+                            // a split tick: part of it is lost, the rest is delivered and acknowledged
+                            let n = self.sys.clients[0].s2c[1].len();
+                            for k in (0..n).rev() {
+                                let lose = self.rng.chance(1, 2);
+                                self.step(format!("{} 0 s2c 1 {k}", if lose { "drop" } else { "deliver" }));
+                            }
+                            while !self.sys.clients[0].s2c[0].is_empty() { self.step("deliver 0 s2c 0 0".into()); }
+                            self.step("cframe 0".into());
+                            while !self.sys.clients[0].c2s[0].is_empty() { self.step("deliver 0 c2s 0 0".into()); }
+                            self.step("sframe tick=1".into());
+                        }
                         if profile == "sys_split" && !lens.is_empty() && !muts.is_empty() && self.rng.chance(1, 2) {
                             // repeat the same mutations against a max size that fits exactly / off by one
                             let hdr = 4 + self.sys.cfg.track as usize;
